@@ -128,6 +128,21 @@ def analyse(src: Source) -> List[Report]:
         rep.ob("R13.7-independent-rule", ok, Loc(ls.file, yi.lineno, f"{ls.name}.{yi.name}"),
                ifs[0].test if ifs else yi.name,
                "composite object if all of its members move (count == nodes per root), else exactly the moving members")
+    # the simple generator (every lifted identifier is independent) may replace the tree rule only for one node level
+    init_ls = ls.methods.get("__init__")
+    rebinds = []
+    if init_ls is not None:
+        for n in ast.walk(init_ls):
+            if isinstance(n, ast.If):
+                for st in n.body:
+                    if isinstance(st, ast.Assign) and self_attr(st.targets[0]) == "yield_independent_lifted_identifiers":
+                        rebinds.append((n, st))
+    for guard, st in rebinds:
+        t = norm(guard.test)
+        rep.ob("R13.7-simple-rule-only-for-one-level", t in ("setting.number_of_node_levels == 1", "1 == setting.number_of_node_levels"),
+               Loc(ls.file, st.lineno, f"{ls.name}.__init__"), guard.test,
+               "the shortcut 'every lifted identifier moves independently' is valid only when there is a single node level; "
+               "with composite objects (even of one point mass) a moving object would be reported twice, as itself and as its member")
     # ---- R13.2 read-only consumers ---------------------------------------------------------------------------------------
     consumers: List[Tuple[ClassInfo, ast.FunctionDef]] = []
     for c in prog.subclasses("OutputHandler"):
@@ -326,6 +341,8 @@ MUTANTS = [
          "                for identifier in self._lifting_state.yield_independent_lifted_identifiers()]\n",
          "                for identifier in self._lifting_state._lifting_dictionary]\n", "R13.7"),
 ]
+MUTANTS.append(Edit("simple active rule selected by nodes per root", "jellyfysh/state_handler/lifting_state/tree_lifting_state.py",
+                    "if setting.number_of_node_levels == 1:", "if setting.number_of_nodes_per_root_node == 1:", "R13.7"))
 TWINS = [
     Edit("copy -> list for positions", SH, "copy(next_node.value.position)", "list(next_node.value.position)"),
     Edit("insert: local alias for the unit", SH,
